@@ -73,6 +73,9 @@ func bufScenarioX(capacity, bufMax int, producers [][]string, consumers [][]stri
 	if strings.HasPrefix(mode, "trim") {
 		name += "/node-pool-1-trimmed-every-5ms/sync.Pool-policy" + mode[4:]
 	}
+	if strings.HasPrefix(mode, "reuse") {
+		name += "/sync.Pool-policy" + mode[5:]
+	}
 	return &vsched.Scenario{
 		Name:     name,
 		Bound:    bound,
@@ -91,6 +94,9 @@ func bufScenarioX(capacity, bufMax int, producers [][]string, consumers [][]stri
 					q.GetNodeHookPoolSize() == 100 && q.GetFreeNodeHookPoolIntervalDuration() == time.Hour)
 			}
 			vsched.PoolRetain = 0
+			if strings.HasPrefix(mode, "reuse") {
+				vsched.PoolRetain = int(mode[5] - '0')
+			}
 			if strings.HasPrefix(mode, "trim") {
 				// one node hook kept by the queue, the free-node worker trims every 5 virtual ms, sync.Pool retains
 				vsched.PoolRetain = int(mode[4] - '0')
@@ -438,6 +444,19 @@ func scenarios(tier string) []*vsched.Scenario {
 		}
 		burst := [][]string{append(rounds, six...)}
 		out = append(out, bufScenarioX(1, 5, burst, nil, "take", 0, false, "trim1"), bufScenarioX(1, 5, burst, nil, "take", 0, false, "trim2"))
+		// every sequence of three bursts with 1-3 values in the overflow buffer, each drained completely before
+		// the next (the buffer's node hooks are re-used from burst to burst), under the pool policies
+		for code := 0; code < 27; code++ {
+			var script []string
+			for k, c := 0, code; k < 3; k, c = k+1, c/3 {
+				for i := 0; i < c%3+2; i++ { // one value goes to the channel, 1-3 to the overflow buffer
+					script = append(script, "offer")
+				}
+				script = append(script, "drainall")
+			}
+			script = append(script, "offer", "offer")
+			out = append(out, bufScenarioX(1, 3, [][]string{script}, nil, "take", 0, false, fmt.Sprintf("reuse%d", code%2)))
+		}
 		// configured through the setters instead of the constructor
 		out = append(out, bufScenarioX(1, 1, P1, cons[0], "poll", 1, false, "setters"), bufScenarioX(1, 0, P1, cons[1], "poll", 1, false, "setters"),
 			bufScenarioX(2, 2, P1, nil, "take", 1, false, "setters"), bufScenarioX(0, 1, P1, cons[2], "poll", 1, false, "setters"))
